@@ -118,8 +118,7 @@ pub fn decompose_dbg(
     let settings = TropicalSamplingSettings {
         matrix_stability_test: tol.map(f64::from_bits),
         print_debug_info: debug,
-        return_metadata: false,
-    };
+        return_metadata: false, ..Default::default() };
     ctx::begin_op(faults.to_vec(), trace, u64::MAX);
     let r = catch_unwind(AssertUnwindSafe(|| sm.decompose_for_tropical(&settings)));
     let st = ctx::end_op();
@@ -540,8 +539,7 @@ fn wide_decompose(m: &MatCase, tol: Option<u64>, fault: Option<(u64, u8)>) -> Re
     let settings = TropicalSamplingSettings {
         matrix_stability_test: tol.map(f64::from_bits),
         print_debug_info: false,
-        return_metadata: false,
-    };
+        return_metadata: false, ..Default::default() };
     crate::simdd::dd_plan(fault.map(|f| f.0), fault.map(|f| 1.0 + 2f64.powi(-(f.1 as i32))).unwrap_or(1.0));
     let r = catch_unwind(AssertUnwindSafe(|| sm.decompose_for_tropical(&settings)));
     crate::simdd::dd_plan(None, 1.0);
@@ -568,7 +566,7 @@ fn wide_mul_count(m: &MatCase) -> u64 {
             sm[(i, j)] = SimDD::from(f64::from_bits(m.entries[i * m.dim + j]));
         }
     }
-    let settings = TropicalSamplingSettings { matrix_stability_test: None, print_debug_info: false, return_metadata: false };
+    let settings = TropicalSamplingSettings { matrix_stability_test: None, print_debug_info: false, return_metadata: false, ..Default::default() };
     let _ = catch_unwind(AssertUnwindSafe(|| sm.decompose_for_tropical(&settings)));
     crate::simdd::dd_mul_count()
 }
